@@ -102,13 +102,13 @@ Lemma status_check_smono st p t : smono st (fst (status_check st p t)).
 Proof.
   unfold status_check. destruct (find_key st p) as [r|]; [|apply smono_refl].
   destruct (k_lock r) as [l|]; [|apply smono_refl].
-  destruct (_ =? _); [destruct (l_async l && negb (is_pess l)); [apply smono_refl|apply upd_key_smono, clear_lock_mono]|apply smono_refl].
+  destruct (_ =? _); [destruct (l_async l && negb (is_pess l) && negb (fallback_now (sec_answers st l))); [apply smono_refl|apply upd_key_smono, clear_lock_mono]|apply smono_refl].
 Qed.
 Lemma status_check_keys st p t : keys (fst (status_check st p t)) = keys st.
 Proof.
   unfold status_check. destruct (find_key st p) as [r|]; [|reflexivity].
   destruct (k_lock r) as [l|]; [|reflexivity].
-  destruct (_ =? _); [destruct (l_async l && negb (is_pess l)); [reflexivity|apply upd_key_keys, clear_lock_key]|reflexivity].
+  destruct (_ =? _); [destruct (l_async l && negb (is_pess l) && negb (fallback_now (sec_answers st l))); [reflexivity|apply upd_key_keys, clear_lock_key]|reflexivity].
 Qed.
 Definition pess_rb_f (t : N) (r : krec) : krec :=
   match k_lock r with Some l => if (l_start l =? t) && is_pess l then clear_lock r else r | None => r end.
